@@ -87,6 +87,16 @@ def idft2Out (F : Arr K) (αr αc : R) (M N : Int) (shr shc : R) (unitary : Bool
     let inPlace : Bool := Gen.fwIdft2ConjInPlace && (unitary || Gen.fwIdft2DivideInPlace)
     .ok G2 (buf.map fun _ => if inPlace then G2 else G1) (isBuf && inPlace)
 
+/-- `dft2(f, alpha)` / `idft2(F, alpha)`: the calls that pass nothing but the sampling — every other argument takes the default
+regenerated from the signature (`Gen.fwDft2ShapeDefault`, `Gen.fwDft2DefaultShift/Offset/Unitary`, `Gen.fwIdft2DefaultShift/Unitary`) -/
+def dft2Default (f : Arr K) (αr αc : R) : Arr K :=
+  dft2 f αr αc (Gen.fwDft2ShapeDefault f.s0 f.s1).1 (Gen.fwDft2ShapeDefault f.s0 f.s1).2
+    (RealLike.ofInt Gen.fwDft2DefaultShift.1) (RealLike.ofInt Gen.fwDft2DefaultShift.2)
+    Gen.fwDft2DefaultOffset.1 Gen.fwDft2DefaultOffset.2 Gen.fwDft2DefaultUnitary
+def idft2Default (F : Arr K) (αr αc : R) : Arr K :=
+  idft2 F αr αc (Gen.fwDft2ShapeDefault F.s0 F.s1).1 (Gen.fwDft2ShapeDefault F.s0 F.s1).2
+    (RealLike.ofInt Gen.fwIdft2DefaultShift.1) (RealLike.ofInt Gen.fwIdft2DefaultShift.2) Gen.fwIdft2DefaultUnitary
+
 /-- the outcome as a tag (what the correspondence compares with the exception class the real call raises) -/
 def OutCall.tag {K : Type} : OutCall K → String
   | .typeError => "TypeError" | .valueError => "ValueError" | .ok _ _ _ => "ok"
